@@ -382,8 +382,17 @@ def _transform(target, fname):
         if not isinstance(data, Arr):
             raise Unsupported('MatrixArray.data is not a heap array', node)
         if P.is_pw(data.t):
-            raise Unsupported('piecewise tensor transform', node)
-        data.t = transform_term(fname, data.t)
+            # a case split on quantities that do not vary along the grid axis (densities, scalars) commutes with the
+            # transform; any other case split does not
+            ps, fs = P.conds(data.t)
+            for pair in ps:
+                for key in pair:
+                    kinds = {ip.sym_kind.get(sn, 'scalar') for sn in N.nf_from_key(key).symbols()}
+                    if not kinds <= {'scalar', 'mat1'}:
+                        raise Unsupported('piecewise tensor transform', node)
+            data.t = P.lift1(lambda leaf: transform_term(fname, leaf), data.t)
+        else:
+            data.t = transform_term(fname, data.t)
         ma.attrs['space'] = Const(('Space', target))
         ip.event('transform', data.origin or ('fresh#%d' % data.aid), node, to=target, fresh=data.fresh,
                  obj=ma.origin)
